@@ -7,6 +7,10 @@ C19 driver: one self-contained case per line.
   env     <gen> x<OTEL_RESOURCE_ATTRIBUTES> x<OTEL_SERVICE_NAME> => <res> <err> <otel.Handle calls>
   detect  <gen> x<initial schema> <det>… => <res> <err>
   requal  <gen> <A> <B>                  => <A.Equal(B)> <B's Equivalent() found in map{A}>
+  new     <gen> x<OTEL_RESOURCE_ATTRIBUTES> x<OTEL_SERVICE_NAME> <opt>… => <res> <err>     (resource.New(ctx, opts…))
+          opt = sch:x<schema> | attrs:<kvs> | env | tsdk:<resource the telemetrySDK detector returns> |
+                dets:<d>;<d>;… with d = nild | <P|S|F><id>/<det> (P pointer, S comparable struct, F
+                non-comparable detector; the same kind+id is the SAME detector value given again)
 
 resource = nil | <kvs>@x<schemahex> (inputs: the attribute list handed to NewWithAttributes; outputs:
 Attributes() and SchemaURL()); kvs as in the C05 driver; err = ok | err:<p?><c?> (p: errors.Is
@@ -60,6 +64,42 @@ def parseDet (s : String) : Option (Option (Option Err × Option (List KV × Byt
       let ra ← parseResArgs r
       pure (some (e, ra))
     | _ => none
+
+/-- rest of a token after its first `:` -/
+def afterColon (s : String) : String := ":".intercalate ((s.splitOn ":").drop 1)
+
+def toDetOut (mk : Option (List KV × Bytes) → Option Res)
+    (d : Option (Option Err × Option (List KV × Bytes))) : Option DetOut :=
+  d.map (fun p => ⟨mk p.2, p.1⟩)
+
+/-- an option token ↦ (model option, reference option) -/
+def parseOpt (s : String) : Option (Opt × Opt) :=
+  if s = "env" then some (.withFromEnv, .withFromEnv)
+  else match (s.splitOn ":").head? with
+    | some "sch" => (parseHex (afterColon s)).map (fun b => (.withSchemaURL b, .withSchemaURL b))
+    | some "attrs" => (parseKVs (afterColon s)).map (fun k => (.withAttributes k, .withAttributes k))
+    | some "tsdk" => do
+      let ra ← parseResArgs (afterColon s)
+      pure (.withDetectors [some ⟨mkModel ra, none⟩], .withDetectors [some ⟨mkRef ra, none⟩])
+    | some "dets" => do
+      let body := afterColon s
+      let toks := if body = "" then [] else body.splitOn ";"
+      let ds ← toks.mapM (fun t =>
+        if t = "nild" then parseDet t
+        else match t.splitOn "/" with
+          | [_, d] => parseDet d
+          | _ => none)
+      pure (.withDetectors (ds.map (toDetOut mkModel)), .withDetectors (ds.map (toDetOut mkRef)))
+    | _ => none
+
+/-- identity of the detectors on a `new` line (kind+id, `env`, `tsdk`), in option order -/
+def detIds (optToks : List String) : List String :=
+  optToks.flatMap (fun s =>
+    if s = "env" then ["env"]
+    else match (s.splitOn ":").head? with
+      | some "tsdk" => ["tsdk"]
+      | some "dets" => ((afterColon s).splitOn ";").filterMap (fun t => (t.splitOn "/").head?.filter (fun h => h != "nild" && h != ""))
+      | _ => [])
 
 def stepLine (_ : Unit) (toks : List String) : Unit × Option Verdict :=
   let (inp, obs) := splitObs toks
@@ -145,6 +185,27 @@ def stepLine (_ : Unit) (toks : List String) : Unit × Option Verdict :=
       (ds.any (fun d => d.any (fun p => p.1.any (fun e => e.isPartial))), "partial"),
       (m.conflictSeen, "conflict"), (m.anyErr, "err"), (!m.anyErr, "noerr")]
     pure { agree := m.res == ⟨okvs, osch⟩ && errOf m == eo, spec := okFail spec, nontrivial := ds.length ≥ 2,
+           branches := br, model := s!"{showRes m.res} {showErr (errOf m)}" }
+  | "new" :: _ :: aS :: sS :: optS, [rS, eS] => do
+    let ae ← parseHex aS
+    let se ← parseHex sS
+    let opts ← optS.mapM parseOpt
+    let ro ← parseResArgs rS
+    let (okvs, osch) ← ro
+    let eo ← parseErr eS
+    let env : Env := ⟨ae, se⟩
+    let m := newResource env (opts.map (·.1))
+    let ref := Spec.newRef env (opts.map (·.2))
+    let errOf (st : DetState) : Option Err := if st.anyErr then some ⟨st.partialSeen, st.conflictSeen⟩ else none
+    let spec := ref.res == ⟨okvs, osch⟩ && errOf ref == eo
+    let ids := detIds optS
+    let schemas := (optS.filter (fun t => t.startsWith "sch:")).length
+    let br := tags [(ids.eraseDups.length != ids.length, "repeated-detector"), (optS.contains "env", "env"),
+      (optS.any (fun t => t.startsWith "attrs:"), "attrs"), (optS.any (fun t => t.startsWith "tsdk:"), "tsdk"),
+      (decide (schemas ≥ 1), "schema"), (decide (schemas ≥ 2), "schema-twice"), (m.conflictSeen, "conflict"),
+      (m.anyErr, "err"), (!m.anyErr, "noerr"), (optS.isEmpty, "noopts")]
+    pure { agree := m.res == ⟨okvs, osch⟩ && errOf m == eo, spec := okFail spec,
+           nontrivial := decide (optS.length ≥ 2) || decide (ids.length ≥ 2),
            branches := br, model := s!"{showRes m.res} {showErr (errOf m)}" }
   | ["requal", _, aS, bS], [eqS, fS] => do
     let a ← parseResArgs aS
